@@ -18,7 +18,7 @@ class NotEnabled(Exception):
     """The menu entry does not denote an operation on this document (e.g. no wrapping exists)."""
 
 
-def enumerate_ops(model, n, pools, groups=("replace", "marks", "structure", "markup")):
+def enumerate_ops(model, n, pools, groups=("replace", "lists", "marks", "structure", "markup")):
     """pools: dict(slices=[slice json], nodes=[node json], marks=[mark json], types=[type names],
     textblocks=[(type, attrs)], markup=[(type, attrs)], attrs=[(name, value)])"""
     R = [(a, b) for a in range(n + 1) for b in range(a, n + 1)]
@@ -35,6 +35,13 @@ def enumerate_ops(model, n, pools, groups=("replace", "marks", "structure", "mar
         for a in range(n + 1):
             for nd in pools.get("nodes", []):
                 yield {"op": "insert", "pos": a, "node": nd}
+    if "lists" in groups:
+        # content given as a LIST of nodes (Fragment.from_ of a list: adjacent same-markup text nodes are fused)
+        for a in range(n + 1):
+            for nl in pools.get("node_lists", []):
+                yield {"op": "insert", "pos": a, "nodes": nl}
+                if a + 1 <= n:
+                    yield {"op": "replace_with", "from": a, "to": a + 1, "nodes": nl}
     if "marks" in groups:
         for a, b in R:
             for m in pools.get("marks", []):
@@ -134,8 +141,17 @@ def default_pools(c, sc, slices, max_slices=None, max_nodes=6, offset=0):
         # `offset` (from VERIF_SEED) rotates which complete sub-pool is used
         stride = -(-len(slices) // max_slices)
         sl = [slices[0], *slices[1 + (offset % stride)::stride]]
+    node_lists = []
+    texts = [x for x in nodes if x["type"] == "text"]
+    if texts:
+        t0 = texts[0]
+        node_lists.append([{**t0, "text": "X"}, {**t0, "text": "Y"}])
+    others = [x for x in picked if x["type"] != "text"]
+    if others:
+        node_lists.append([others[0], others[0]])
     return {
         "slices": sl,
+        "node_lists": node_lists,
         "nodes": picked[:max_nodes + 3],
         "marks": gen_steps.schema_marks(model, 4),
         "types": types,
@@ -154,6 +170,10 @@ def apply_op(c, tr, op):
         return tr.replace(op["from"], op["to"], c.slice(op["slice"]))
     if k == "replace_range":
         return tr.replace_range(op["from"], op["to"], c.slice(op["slice"]))
+    if k == "replace_with" and "nodes" in op:
+        return tr.replace_with(op["from"], op["to"], [c.node(x) for x in op["nodes"]])
+    if k == "insert" and "nodes" in op:
+        return tr.insert(op["pos"], [c.node(x) for x in op["nodes"]])
     if k == "replace_with":
         return tr.replace_with(op["from"], op["to"], c.node(op["node"]))
     if k == "replace_range_with":
